@@ -206,12 +206,16 @@ Definition apply_with (upd : json -> json -> json) (o : dop) (t : json) : result
       | None => Ok (t, dflt)
       end
   | OClear, JObj _ => Ok (JObj [], JNull)
+  | OClear, JArr _ => Ok (JArr [], JNull)           (* both container types have clear() *)
+  | LClear, JObj _ => Ok (JObj [], JNull)
+  | OReset _, JArr _ => Err EValueError              (* SyncedList.reset(mapping): ValueError, nothing saved *)
   | OReset n, JObj _ => Ok (upd t (JObj (aset_all n [])), JNull)
   | LAppend v, JArr l => Ok (JArr (l ++ [v]), JNull)
   | LSet i v, JArr l =>
       match list_set (N.to_nat i) v l with Some l' => Ok (JArr l', JNull) | None => Err ELookupError end
   | LDel i, JArr l =>
       match list_del (N.to_nat i) l with Some l' => Ok (JArr l', JNull) | None => Err ELookupError end
+  | LDel _, JObj _ => Err EKeyError        (* del d[5] on a dict: no such key *)
   | LExtend vs, JArr l => Ok (JArr (l ++ vs), JNull)
   | LInsert i v, JArr l => Ok (JArr (list_insert (N.to_nat i) v l), JNull)
   | LClear, JArr _ => Ok (JArr [], JNull)
